@@ -24,7 +24,7 @@ GRID = 0.125
 
 def cases(tier, seed):
     out = []
-    n = 60 if tier == "quick" else 600
+    n = 60 if tier == "quick" else 20000
     for i in range(n):
         out.append({"name": "timeout.deadlines/%s/%d" % ("f_timeout" if i % 3 == 2 else "executor", i), "kind": "gen",
                     "form": "f_timeout" if i % 3 == 2 else "executor", "idx": i})
